@@ -68,6 +68,12 @@ func (p *Parser) nextToken() error {
 	}
 
 	token, err := p.lexer.NextToken()
+	// A comment may appear between any two tokens and counts as white space
+	// (ISO 32000-1, 7.2.3). Dropping it here keeps it out of the look-ahead
+	// window, so that "12 0 % note\n R" is still recognised as a reference.
+	for err == nil && token != nil && token.Type == TokenComment {
+		token, err = p.lexer.NextToken()
+	}
 	if err != nil {
 		// Most callers advance without looking at the result. Remember the
 		// first tokenizer error and feed EOF from here on, so that parsing
